@@ -467,9 +467,11 @@ class C10(Property):
                    'a zero-order reaction whose product has no other reaction makes pyodesys fail (constant derivative) and is avoided',
                    'a Quantity wrapping an Expr as rate constant, nested Expr arguments and UncertainQuantity are outside the model')
     clauses_without_theorem = (
-        'registry independence for Arrhenius / Eyring / Radiolytic rate EXPRESSIONS (only their args_dimensionality dictionaries have a '
-        'theorem; nested Expr arguments of dedimensionalisation are outside the model): oracle only (kind ode_expr: Arrhenius in 10 ways of '
-        'supplying it, Eyring, Radiolytic (yield x density x dose rate), THREE registries / unit choices each vs the hand formula)',
+        'Arrhenius / Eyring constants supplied otherwise than as values with the temperature as parameter (substitutions, constants, RampedTemp, '
+        'as_RateExpr, unique keys), Radiolytic with several dose rates: oracle only (kind ode_expr, THREE registries / unit choices each vs the '
+        'hand formula). Values + parameters HAVE theorems: registry_independence_arrhenius (round 10), eyring_constant_registry_independent, '
+        'radiolytic_rate_registry_independent, unitless_constants_registry_independent (round 11); correspondence op arrhenius_args only — the '
+        'Eyring / Radiolytic model functions are tied to the code by the oracle formulas, not by a driver op',
         'array-valued rate constants (refused with ValueError by `.item()` whatever the dimension): model reactionCheckSized, correspondence + oracle, no theorem',
         'odesys.integrate with quantities in and out: only the three to_arrays callbacks composed with the post-processor have a theorem; '
         'integration itself is third party (unit_aware_solve over a very short time is sampled in the validate cases)',
@@ -489,7 +491,8 @@ class C10(Property):
         'Reaction(checks=..., dont_check=...) (model reactionCtor, correspondence reaction_ctor) and Reaction.copy (oracle): no Props theorem '
         '(reactionCtor only selects whether reactionCheck runs)',
         'get_odesys(cstr=True, unit_registry=...): refused with KeyError (finding 8), model and real agree on the refusal',
-        'Equilibrium.as_reactions with param=(kf, kb) tuples: oracle only (the model covers kf-given / kb-given / none / both)',
+        'Equilibrium.as_reactions with param=(kf, kb) tuples: oracle only (the model covers kf-given / kb-given / none / both, with the success '
+        'characterisation as_reactions_succeeds_iff)',
     )
     anchors = [('chempy/chemistry.py', 'Equilibrium.as_reactions'), ('chempy/chemistry.py', 'Reaction.copy'), ('chempy/chemistry.py', 'Reaction.__init__'),
                ('chempy/chemistry.py', 'Reaction.check_consistent_units'), ('chempy/chemistry.py', 'Equilibrium.check_consistent_units'),
@@ -922,6 +925,10 @@ class C10(Property):
                     'y': [rat_json(F(c['c0'][x])) for x in c['subst']], 'ns': len(c['subst']), 'kind': k}
         if k == 'cstr_units':
             return {'op': 'ode_units', 'reg': _mj_reg(c['reg']), 'pk': ['feedratio', 'fc_A', 'fc_B'], 'include': True, 'unique': [], 'kind': k}
+        if k == 'ode_expr' and c['variant'] == 'plain' and c['cls'] == 'Arrhenius':
+            conf = c['confs'][0]
+            return {'op': 'arrhenius_args', 'reg': _mj_reg(conf['reg']), 'A': _mj(conf['A']),
+                    'EaR': _mj({'mag': c['Ea'], 'u': [['K', 1]]}), 'T': _mj({'mag': c['T'], 'u': [['K', 1]]}), 'kind': k}
         if k == 'ode_expr' and c['variant'] == 'fk_named':
             order = sum(c['reac'].values())
             return {'op': 'ode_units', 'reg': _mj_reg(c['confs'][0]['reg']), 'pk': ['temperature'], 'include': False,
@@ -1105,6 +1112,17 @@ class C10(Property):
                 if k == 'cstr_units':
                     _, extra = self._run_cstr_units(c)
                     return json.dumps({'keys': list(extra['param_keys']), 'p_units': [list(_read(x)) for x in extra['p_units']]})
+                if k == 'ode_expr' and c['variant'] == 'plain':
+                    # the three unitless numbers the unit-aware system evaluates the Arrhenius expression on
+                    from chempy.kinetics import rates
+                    conf = c['confs'][0]
+                    u_ = _cu().default_units
+                    odesys, extra, ins, _ = self._build_expr(c, conf)
+                    _, inst = rates.MassAction(rates.Arrhenius([_real(conf['A']), float(F(c['Ea'])) * u_.K])).dedimensionalisation(
+                        _real_reg(conf['reg']))
+                    a_, e_ = inst.args[0].args
+                    t_ = odesys.to_arrays_callbacks[2]([ins[2]['temperature']])
+                    return json.dumps([float(a_), float(e_), float(t_[0])])
                 if k == 'ode_expr':
                     odesys, extra, _, _ = self._build_expr(c, c['confs'][0])
                     return json.dumps({'keys': list(odesys.param_names), 'p_units': [list(_read(x)) for x in extra['p_units']]})
@@ -1302,6 +1320,8 @@ class C10(Property):
             if k == 'no_registry':
                 sc = self._plain_scales(c)
                 return len(a) == len(b) and all(_close(x, F(yv), s_) for x, yv, s_ in zip(a, b, sc))
+            if k == 'ode_expr' and c['variant'] == 'plain':
+                return len(a) == len(b) == 3 and all(_close(x, F(yv)) for x, yv in zip(a, b))
             if k in ('ode_expr', 'cstr_units'):
                 if k == 'ode_expr' and a['keys'] != ['temperature', 'A1', 'Ea1']:
                     return False
